@@ -238,6 +238,9 @@ def run(ctx) -> None:
     ctx.rule("C15.R6-no-process-wide-memo", "the modules on the load path keep no process-wide mutable state: a function stores into "
              "class-level attributes (cls.X, <Class>.X, their items, or through their mutators) only immutable scalars - a class-level "
              "cache of parsed or resolved objects makes the second load in a process differ from the first load of a fresh process")
+    ctx.rule("C15.R7-identity-keys-are-canonical", "a value that identifies a mapping (it is used as a dictionary key / looked up with 'in') and "
+             "is built by iterating that mapping is built in sorted order (or as a frozenset): equal documents that list the keys in a "
+             "different order must get the same identity")
     ctx.rule("C15.R5-single-pass-expansion-not-loop-carried", "a single-pass substitution (Template.safe_substitute wrappers such as "
              "expand_vars) applied while iterating a mapping never uses as its context a mapping that is stored into in the same "
              "loop: otherwise values seen by later keys depend on the key order of the (equal) input document")
@@ -442,3 +445,62 @@ def run(ctx) -> None:
                "no function of the load path stores a mutable object into class-level state (%d functions; scalar memos: %s)"
                % (n_fn, sorted({a for _, _, a in scalar_memos}) or "none"), construct="class-level state of the load path is immutable")
     ctx.floor("C15.R6-no-process-wide-memo", n_fn, 500, "functions of the load-path modules inspected")
+
+    # ---------------- R7 -------------------------------------------------------------------------------
+    # helper functions (nested or module-level) of dsl.py whose result is used as a key of a mapping
+    dmod = ctx.repo.module(DSL)
+    n_keys = 0
+    for q, f in dmod.functions.items():
+        if not any(isinstance(x, (ast.FunctionDef,)) for x in [f]):
+            continue
+        # names of callables whose result is used as a mapping key in f
+        key_funcs = set()
+        for n in source.walk_own(f):
+            keys = []
+            if isinstance(n, ast.Subscript):
+                keys.append(n.slice)
+            if isinstance(n, ast.Compare) and len(n.ops) == 1 and isinstance(n.ops[0], (ast.In, ast.NotIn)):
+                keys.append(n.left)
+            for k in keys:
+                if isinstance(k, ast.Name):
+                    for v in match.assigned_value(f, k.id):
+                        if isinstance(v, ast.Call) and isinstance(v.func, ast.Name):
+                            key_funcs.add(v.func.id)
+                elif isinstance(k, ast.Call) and isinstance(k.func, ast.Name):
+                    key_funcs.add(k.func.id)
+        for kf in sorted(key_funcs):
+            helper = dmod.functions.get("%s.%s" % (q, kf)) or dmod.functions.get(kf)
+            if helper is None:
+                continue
+            params = {a.arg for a in helper.args.args}
+            rets = [r.value for r in source.walk_own(helper) if isinstance(r, ast.Return) and r.value is not None]
+            # iterations over a parameter (or its .items()/.keys()/.values()) anywhere in the helper
+            its = []
+            for x in ast.walk(helper):
+                cands = []
+                if isinstance(x, ast.For):
+                    cands.append(x.iter)
+                if isinstance(x, (ast.GeneratorExp, ast.ListComp, ast.SetComp, ast.DictComp)):
+                    cands.extend(g.iter for g in x.generators)
+                for it in cands:
+                    base = it
+                    if isinstance(base, ast.Call) and call_name(base) == "sorted" and base.args:
+                        base = base.args[0]
+                    if isinstance(base, ast.Call) and isinstance(base.func, ast.Attribute) and base.func.attr in ("items", "keys", "values"):
+                        base = base.func.value
+                    if isinstance(base, ast.Name) and base.id in params:
+                        its.append((x, it))
+            if not its or not rets:
+                continue
+            n_keys += 1
+            ctx.analysed(helper)
+            order_free = all(isinstance(r, ast.Call) and call_name(r) in ("frozenset", "set") for r in rets)
+            unsorted = [(x, it) for (x, it) in its if not (isinstance(it, ast.Call) and call_name(it) == "sorted")]
+            ok = order_free or not unsorted
+            ctx.ob("C15.R7-identity-keys-are-canonical", unsorted[0][1] if unsorted else helper, ok,
+                   "%s, whose result keys a mapping in %s, enumerates its argument in sorted order" % (kf, q) if ok else
+                   "%s builds the key under which %s looks a mapping up by iterating its argument in insertion order (%s): two equal mappings "
+                   "written with their keys in a different order get different identities - e.g. equal component environments are "
+                   "registered as env0 and env1, and a component's command.environment changes with the key order of the document"
+                   % (kf, q, short(unsorted[0][1], 40)), construct="%s.%s enumerates its argument in sorted order" % (q, kf))
+    ctx.floor("C15.R7-identity-keys-are-canonical", n_keys, 1, "helpers of dsl.py whose result keys a mapping")
